@@ -16,7 +16,7 @@ from vmc.checks.common import Program, replay_program, run_programs
 from vmc.engine import Action, EngineExec, MonRuntime, RunConfig, task_outcome
 from vmc.events import Resp
 from vmc.explore import Execution
-from workflows.events import StartEvent, WorkflowIdleEvent
+from workflows.events import StartEvent, StopEvent, WorkflowIdleEvent
 
 PID = "C36"
 
@@ -175,6 +175,93 @@ def execute(ex: Execution, backend: str, idle_timeout: float, n_waits: int, stac
         return obs, v
 
 
+def wf_counter() -> Any:
+    """a human-in-the-loop shape: the run does nothing until the client sends something; Work bumps a counter in the state,
+    Done finishes with it.  The first step of a continued run does not open the state store."""
+    from vmc.engine import make_step, make_workflow
+    from vmc.events import Bump as Work, Finish as Done
+
+    async def begin(self, ctx, ev, inv):  # noqa: ANN001
+        return None
+
+    async def bump(self, ctx, ev, inv):  # noqa: ANN001
+        await ctx.store.set("count", await ctx.store.get("count", default=0) + 1)
+        return None
+
+    async def finish(self, ctx, ev, inv):  # noqa: ANN001
+        return StopEvent(result=await ctx.store.get("count", default=0))
+
+    return make_workflow("Counter", [make_step("begin", [StartEvent], [None], begin), make_step("bump", [Work], [None], bump),
+                                     make_step("finish", [Done], [StopEvent], finish)])
+
+
+def execute_continued(ex: Execution, backend: str, idle_timeout: float) -> tuple[Any, list[Any]]:
+    """a handler's first run finishes with count=2; the handler is started again (the new run continues from the finished run's
+    context, i.e. it is STARTED WITH state), idles, and gets one more bump and the finish at explorer-chosen points - before the
+    idle timer, or after the release (reloaded on demand).  It must finish with 3."""
+    from vmc.events import Bump as Work, Finish as Done
+
+    sh.clear_graveyard()
+    sh.reset_ids()
+    ih.reset()
+    v: list[Any] = []
+    w = {"stack": "in_process", "run_started_with_state": True}
+    cfg = RunConfig(max_actions=60, allow_time=True, pair_time=True)
+    store = sh.make_store(backend)
+    with EngineExec(ex, cfg) as e:
+        stack = sh.Stack(store, idle_timeout=idle_timeout, wrap_basic=MonRuntime)
+        wf = wf_counter()(timeout=None)
+        stack.add_workflow("wf", wf)
+        info: dict[str, Any] = {}
+
+        async def first() -> None:
+            await stack.service.start()
+            await stack.service.start_workflow(wf, "h1", StartEvent())
+            for _ in range(2):
+                await stack.service.send_event("h1", Work(uid=1))
+            await stack.service.send_event("h1", Done(uid=1))
+
+        t = e.loop.create_task(first())
+        e.loop.drain()
+        h1 = ih.query_handler(e.loop, store)
+        first_result = getattr(getattr(h1, "result", None), "result", None)
+        if task_outcome(t)[0] != "result" or h1 is None or h1.status != "completed" or first_result != 2:
+            raise RuntimeError(f"harness: the first run did not finish with 2: {task_outcome(t)} {getattr(h1, 'status', None)} {first_result!r}")
+
+        async def again() -> None:
+            data = await stack.service.start_workflow(wf, "h1", StartEvent())
+            info["run_id"] = data.run_id
+
+        t2 = e.loop.create_task(again())
+        e.loop.drain()
+        if task_outcome(t2)[0] != "result":
+            raise RuntimeError(f"harness: the handler could not be started again: {task_outcome(t2)}")
+        sends: list[Any] = []
+        e.add_script([Action("send Work (bump)", lambda: sends.append(e.loop.create_task(stack.service.send_event("h1", Work(uid=2))))),
+                      Action("send Done (finish)", lambda: sends.append(e.loop.create_task(stack.service.send_event("h1", Done(uid=2)))))])
+        cfg.time_filter = lambda h: bool(e.loop.timer_deadlines()) and e.loop.timer_deadlines()[0] - e.loop.vt < 1000
+        e.drive()
+        hd = ih.query_handler(e.loop, store)
+        got = getattr(getattr(hd, "result", None), "result", None)
+        rels = [r for r in ih.RELEASES if r.get("run_id") == info.get("run_id")]
+        desc = f"[in_process/{backend}] continued handler, idle_timeout={idle_timeout} schedule {ex.labels}"
+        for i, task in enumerate(sends):
+            out = task_outcome(task)
+            if out[0] != "result":
+                v.append(("send_event_to_idle_or_released_run_failed", {**w, "exc": type(out[1]).__name__ if out[1] is not None else out[0]},
+                          f"{desc}: send {i} ended {out}"))
+        if len(sends) == 2 and all(s.done() for s in sends) and not e.capped:
+            if hd is None or hd.status != "completed" or got != 3:
+                v.append(("reloaded_run_does_not_continue_from_where_it_stopped", {**w, "released_before_event": bool(rels)},
+                          f"{desc}: first run finished with 2, the continued run got one more bump; handler status={getattr(hd, 'status', None)} "
+                          f"result={got!r} expected 3; releases of the continued run={len(rels)}"))
+        if any(n > 1 for n in ih.LIVE["max"].values()):
+            v.append(("two_live_control_loops", w, f"{desc}: {ih.LIVE['max']}"))
+        obs = {"status": getattr(hd, "status", None), "result": got, "releases": len(rels),
+               "_metrics": {"max_concurrency": 1 + len(sends), "releases": len(rels)}}
+        return obs, v
+
+
 def programs(tier: str) -> list[Program]:
     q = tier == "quick"
     ps = []
@@ -188,6 +275,9 @@ def programs(tier: str) -> list[Program]:
     for backend in (("memory",) if q else ("memory", "sqlite")):
         ps.append(Program(f"in_process/{backend}/idle_timeout=5.0/waits=1/unhandled_event", {"backend": backend, "idle_timeout": 5.0, "waits": 1, "noise": True},
                           (lambda ex, backend=backend: execute(ex, backend, 5.0, 1, "in_process", "n/a", False, True)), max_dev=(4 if q else None)))
+    for backend in ("memory", "sqlite"):
+        ps.append(Program(f"in_process/{backend}/idle_timeout=5.0/continued_handler", {"backend": backend, "idle_timeout": 5.0, "continued": True},
+                          (lambda ex, backend=backend: execute_continued(ex, backend, 5.0)), max_dev=(4 if q else None)))
     for backend in ("memory", "sqlite"):
         for it in ((0.5, 60.0) if q else (0.5, 5.0, 60.0)):
             for n in (1, 2):
